@@ -1,5 +1,6 @@
 SPECIFICATION Spec
 CONSTANTS
+  Sharing = "none"
   Depth = 5
   PoolMethods <- GenPoolMethods
 INVARIANT Emit
